@@ -110,6 +110,23 @@ class Report:
                      found=f'{len(acc)} return statements, all analysed', stmt=f'returns of {fi.name}')
         return not extra
 
+    def account_exits(self, rule, fi, work, what, excused=()):
+        """Must-pass-through: every `return` of a procedure whose job is to produce an output (write a file, print a tree) comes after
+        that output was produced on its own path - a work statement precedes it whose guards are a subset of the return's guards.
+        A `return` that leaves before (a guard clause for some special input) is reported, naming the statement."""
+        import ast as _ast
+        from .astutil import guard_map, path_atoms, u, walk_no_nested
+        gm = guard_map(fi.node)
+
+        def gs(st):
+            return {(id(t), bool(p)) for t, p in gm.get(st, ())}
+        early = [r for r in walk_no_nested(fi.node) if isinstance(r, _ast.Return)
+                 and not any(w.lineno < r.lineno and gs(w) <= gs(r) for w in work)
+                 and not (set(excused) & set(path_atoms(gm[r])))]          # `excused`: path atoms of a documented other mode of the command
+        self.add(rule, fi.site(early[0] if early else None), f'{fi.name}: no exit leaves before {what}', not early, expected=f'every return after {what} on its own path',
+                 found=[f'line {r.lineno}: return under {sorted(path_atoms(gm[r]))}' for r in early[:3]] or f'{len(work)} output site(s), no early return', stmt=f'exits of {fi.name}')
+        return not early
+
     def require(self, cond, reason):
         if not cond:
             raise Undecided(reason)
